@@ -46,7 +46,7 @@ TIERS = {
     "quick": {"runs": 800, "chunk": 10, "wall": 100, "chunk_timeout": 400, "selftest": 4, "pool": 14},
     "thorough": {"runs": 8000, "chunk": 20, "wall": 800, "chunk_timeout": 900, "selftest": 8, "pool": 36},
 }
-EXPECTED_PROBES = {t: ["generated_through_manager_into_reused_dir", "nonzero_hashseed", "generate_on_reused_tree", "generate_after_generate_same_tree", "cpp_with_services",
+EXPECTED_PROBES = {t: ["schema_is_a_module_tree", "generated_through_manager_into_reused_dir", "nonzero_hashseed", "generate_on_reused_tree", "generate_after_generate_same_tree", "cpp_with_services",
                        "multi_protocol_schema", "clock_crossed_midnight", "after_parse_broken", "after_layout",
                        "listing_permuted", "two_generators_same_tree"] for t in TIERS}
 GENS = ["dbc", "can_c", "cpp", "nop"]
@@ -165,11 +165,45 @@ def add_range_and_unit(rng, decls):
                     return
 
 
+def mux_can_c_schema(rng):
+    """fcp_can_c shape with two multiplexed signals switched by two different selector signals in one message."""
+    names = K.Names(rng)
+    sname = names.struct()
+    w = rng.sample(S.WORDS, 5)
+    fields = [{"name": w[i], "id": i, "type": ["u", 8]} for i in range(5)]
+    return [{"kind": "struct", "name": sname, "fields": fields},
+            {"kind": "impl", "protocol": "can", "type": sname, "name": sname, "fields": [["id", rng.randint(1, 2000)], ["device", "ecu"]],
+             "signals": [{"name": w[2], "fields": [["mux_signal", w[0]], ["mux_count", rng.randint(2, 6)]]},
+                         {"name": w[3], "fields": [["mux_signal", w[1]], ["mux_count", rng.randint(2, 6)]]}]}]
+
+
+def flatten_collision_schema(rng):
+    """A nested field a::b next to a sibling literally called a_b (both flatten to a_b in DBC/C signal names)."""
+    names = K.Names(rng)
+    inner, outer = names.struct(), names.struct()
+    a, b = rng.sample(S.WORDS, 2)
+    return [{"kind": "struct", "name": inner, "fields": [{"name": b, "id": 0, "type": ["u", 8]}]},
+            {"kind": "struct", "name": outer, "fields": [{"name": a, "id": 0, "type": ["struct", inner]},
+                                                          {"name": f"{a}_{b}", "id": 1, "type": ["u", 8]}]},
+            {"kind": "impl", "protocol": "can", "type": outer, "name": outer, "fields": [["id", rng.randint(1, 2000)], ["device", "ecu"]], "signals": []}]
+
+
+def module_tree_schema(rng):
+    """A schema split into module files (FILES: json), parsed from the same scratch location by every operation of a process."""
+    root = K.gen_tree(rng, max_depth=2, same_basename_p=0.0)
+    return "FILES:" + json.dumps(K.tree_files(root, rng.randrange(8)), sort_keys=True)
+
+
 def make_pool(seed, n):
     pool = {}
     i = 0
     while len(pool) < n:
         rng = stream(H(seed, "C17", "pool", i), "schema")
+        special = {6: mux_can_c_schema, 9: flatten_collision_schema}.get(i)
+        if special is not None or i in (3, 11):
+            pool[f"s{len(pool)}"] = S.render(special(rng), rng.randrange(8)) if special is not None else module_tree_schema(rng)
+            i += 1
+            continue
         if i % 5 == 4:
             decls = can_c_enum_schema(rng)
         else:
@@ -326,6 +360,8 @@ def judge_run(pool, cfg, sids, ops, probes=None, tr=None, distinct=None):
                 if gen_seen[sid] != {g}:
                     probes["two_generators_same_tree"] += 1
         gen_seen.setdefault(sid, set()).add(g)
+        if pool[sid].startswith("FILES:"):
+            probes["schema_is_a_module_tree"] += 1
         if g == "cpp" and "service " in pool[sid]:
             probes["cpp_with_services"] += 1
         if len(set(l.split()[1] for l in pool[sid].split("\n") if l.startswith("impl "))) >= 2:
